@@ -446,6 +446,11 @@ func CborHeads(b []byte) []Head {
 }
 
 // CborHeadBytes renders a head for major/arg in the width selected by ai (24,25,26,27) or minimal (ai<24 → immediate).
+// CborMinimalHead: the head of major type major with argument arg in its shortest form.
+func CborMinimalHead(major byte, arg uint64) []byte {
+	return CborHeadBytes(major, arg, minimalAI(arg))
+}
+
 func CborHeadBytes(major byte, arg uint64, ai byte) []byte {
 	m := major << 5
 	switch ai {
